@@ -165,7 +165,12 @@ def normals_check(ctx, c, outs):
         warnings.simplefilter("ignore")
         s1, s2 = get_proper_groups(Gl, Gr)
         N = _get_large_cell_normals(s1, s2).data.reshape(-1, 4)
-        D = get_distinguished_points(s1, s2).data.reshape(-1, 4)
+    # distinguished points computed independently: Re(gl M gr) = M . conj(gr gl), and conj(gr gl) ranges over the products
+    # gl' gr' (groups are closed under inverse), so the large-cell walls are 1 +- e with e in {gl * gr}
+    d1, _ = gdata(s1)
+    d2, _ = gdata(s2)
+    D = hmul(d1[:, None, :], d2[None, :, :]).reshape(-1, 4)
+    D = D[np.abs(np.abs(D[:, 0]) - 1) > 1e-9]
     one = np.array([1.0, 0, 0, 0])
     walls = np.concatenate([one + D, one - D, one + (-D), one - (-D)]) if len(D) else np.zeros((0, 4))
     nz = np.linalg.norm(walls, axis=1) > 1e-9
@@ -223,12 +228,26 @@ def generate(ctx):
     extra = 30 if ctx.tier == "quick" else 400
     for _ in range(extra):
         pairs.append((int(rng.integers(nG)), int(rng.integers(nG))))
+    # every ordered pair of crystal systems through representative proper groups: the product sets Gl.Gr and Gr.Gl
+    # differ for cubic x trigonal/hexagonal pairs
+    names = [g.name for g in gs]
+    reps = [names.index(x) for x in ("112", "222", "4", "422", "3", "32", "312", "6", "622", "23", "432")]
+    cross = [(a, b) for a in reps for b in reps if a != b]
+    if ctx.tier == "quick":
+        cub = {names.index("23"), names.index("432")}
+        hexa = {names.index(x) for x in ("3", "32", "312", "6", "622")}
+        key = [p for p in cross if (p[0] in cub and p[1] in hexa) or (p[1] in cub and p[0] in hexa)]
+        rest = [p for p in cross if p not in key]
+        idx = rng.choice(len(rest), 16, replace=False)
+        cross = key + [rest[i] for i in idx]
+    pairs += cross
     per = 1 if ctx.tier == "quick" else 6
     for kl, kr in pairs:
         Gl, Gr = gs[kl], gs[kr]
         if Gl.size * Gr.size > 600 and ctx.tier == "quick":
             continue
-        for _ in range(per):
+        cubic_hex = {Gl.system, Gr.system} & {"cubic"} and {Gl.system, Gr.system} & {"trigonal", "hexagonal"}
+        for _ in range(per * (2 if cubic_hex else 1)):
             shape = [(1,), (2,), (1, 2), (2, 1)][rng.integers(4)]
             n = int(np.prod(shape))
             q = [GQ.unit_quat(rng)[0] for _ in range(n)]
